@@ -6,6 +6,8 @@ first call of `JSONPointer()`. Model: KinModel/C12/ErrObject.lean; table: Gen/C1
 import KinModel.C12.ErrObject
 import KinModel.Props.C12D
 import KinModel.Gen.C12ErrAccess
+import KinModel.Gen.C12ErrValues
+import KinModel.Gen.C12Accumulate
 namespace KinModel.Schema
 
 /-! ### the regenerated table: who touches the recorded path -/
@@ -28,6 +30,69 @@ theorem only_the_marker_writes :
 def codeCopies : Bool := Gen.c12ErrAccess.any (fun r => r.fn == "openapi3.SchemaError.JSONPointer" && r.effects.isEmpty)
 
 theorem jsonPointer_reverses_a_copy : codeCopies = true := by decide
+
+
+/-! ### the regenerated table: what every error quotes
+
+The model builds its errors with `here field v r` (quoting the value `v` of the node being visited, `loc_here`), with
+`mark (.key k) (here "required" v r)` for a missing required property (`loc_required`), with no quoted value for the
+`nullable` error (`Value: nil`), the discriminator-shape error and the errors that only wrap a format / pattern failure.
+The table `C12ErrValues` lists every `SchemaError{…}` literal of package openapi3 with the expression that fills `Value`. -/
+
+theorem err_values_recognised : ∀ r ∈ Gen.c12ErrValues, r.quotes ≠ "unrecognised" := by decide
+
+/-- every error built in package openapi3 quotes the parameter `value` of the enclosing visit function — a parameter
+that the function never assigns, i.e. the value found at the location the unwinding markers record — and is not
+re-located at its construction site, EXCEPT the rows listed here, each of which has its own model constructor: no quote
+(`absent`, `nil`), the discriminator property's value re-located under the property name, the `required` error
+re-located under the missing name, and the format validators' own errors (never returned directly). No site quotes a
+scratch copy or a loop variable of the visit. -/
+theorem visit_errors_quote_the_visited_value :
+    Gen.c12ErrValues.filter (fun r => r.quotes != "param:value" || r.marked) =
+      [⟨"Schema.visitXOFOperations", "\"discriminator\"", "absent", false⟩,
+       ⟨"Schema.visitXOFOperations", "\"discriminator\"", "local:discriminatorVal", true⟩,
+       ⟨"Schema.visitXOFOperations", "\"discriminator\"", "local:discriminatorVal", true⟩,
+       ⟨"Schema.visitJSONNull", "\"nullable\"", "nil", false⟩,
+       ⟨"Schema.visitJSONNumber", "", "absent", false⟩,
+       ⟨"Schema.visitJSONNumber", "", "absent", false⟩,
+       ⟨"Schema.visitJSONString", "", "absent", false⟩,
+       ⟨"Schema.visitJSONObject", "\"required\"", "param:value", true⟩,
+       ⟨"NewIPValidator", "", "local:ip", false⟩,
+       ⟨"NewIPValidator", "", "local:ip", false⟩,
+       ⟨"NewIPValidator", "", "local:ip", false⟩,
+       ⟨"Schema.compilePattern", "\"pattern\"", "absent", false⟩] := by decide
+
+/-- the other 25 sites (one per keyword check and per composition) quote `param:value` -/
+theorem visit_error_sites_counted :
+    (Gen.c12ErrValues.filter (fun r => r.quotes == "param:value" && !r.marked)).length = 25 ∧ Gen.c12ErrValues.length = 37 := by decide
+
+
+/-! ### the regenerated table: no error is dropped on the way into the MultiError -/
+
+/-- the 22 uses of `settings.multiError` in openapi3/schema.go are all `if !settings.multiError { return err }` followed
+by one of the three recognised continuations -/
+theorem accumulate_sites_recognised :
+    Gen.c12Accumulate.length = 22 ∧
+    ∀ r ∈ Gen.c12Accumulate, r.shape = "plain" ∨ r.shape = "flatten-else" ∨ r.shape = "flatten-continue" := by decide
+
+/-- at every accumulation site of the code, an error of ANY dynamic type (a *SchemaError, the FailFast sentinel, the
+NaN/Inf errors, a plain error, a non-empty nested MultiError) makes the accumulator strictly longer: nothing that failed
+is forgotten in multi-error mode, which is what the fold `collect` of the model assumes. -/
+theorem accumulate_keeps_every_error (r : Gen.C12AccumulateRow) (hr : r ∈ Gen.c12Accumulate) (n : Nat) (e : GoErrKind)
+    (he : e ≠ .multi 0) : ∃ m, keepLen r.shape n e = some m ∧ n < m := by
+  rcases accumulate_sites_recognised.2 r hr with h | h | h <;> rw [h] <;> cases e with
+  | multi k =>
+    have : 0 < k := by
+      rcases Nat.eq_zero_or_pos k with h0 | h0
+      · exact absurd (by rw [h0]) he
+      · exact h0
+    simp [keepLen]; try omega
+  | _ => simp [keepLen]
+
+/-- the statement is falsifiable: a type switch without default (cases MultiError, *SchemaError) forgets the sentinel -/
+theorem switch_without_default_drops : keepLen "switch-no-default" 0 .sentinel = some 0 := by decide
+
+example : ∃ r ∈ Gen.c12Accumulate, r.shape = "flatten-else" := by decide
 
 /-! ### every observation sequence -/
 
